@@ -65,6 +65,10 @@ def corpus_chars():
             out.append((b"#\\" + bytes([c]) + suffix, r6))
         out.append((b"(#\\" + bytes([c]) + b")", r6))
         out.append((b"(#\\" + bytes([c]) + b" a)", r6))
+        out.append((b"[#\\" + bytes([c]) + b"]", r6))
+        out.append((b"[1 #\\" + bytes([c]) + b"]", P(cs=0, br=1)))
+        out.append((b"#(#\\x" + b"%x" % c + b")", r6))
+        out.append((b"[#\\x" + b"%x" % c + b"]", P(cs=0, br=1)))
         for suffix in (b"", b" ", b"]"):
             out.append((b"?" + bytes([c]) + suffix, el))
             out.append((b"?\\" + bytes([c]) + suffix, el))
@@ -100,7 +104,7 @@ TOKENS = [b"nil", b"nil:", b"nilx", b"t", b"tt", b"t:", b":a", b"a:", b":a:", b"
           b"...", b".a", b".a:", b".nil", b"a.b", b"-1x", b"1.", b"1.e", b".5", b"-.5", b"1e", b"1e-7", b"1e+", b"#t", b"#f", b"#nil", b"#true", b"#nilx",
           b"#x10", b"#b101", b"#b102", b"#d1.5", b"#e1", b"#xg", b"#x-a", b"#x+A", b"#o8", b"\xce\xbb", b"\xce\xbb:", b"\xe2\x82\xac", b"a\"b", b"a|b", b"a#b",
           b"a'b", b"|", b"{", b"\\", b"@", b"_x", b"!", b"a\x00b", b"-\x00", b"\x00", b"\x0b", b"1\"a\"", b"12|", b"5:", b"5nil", b"0nil:", b"9.9.9",
-          b"550e8400-e29b-41d4", b"1e-7x", b"0.0000001", b"-0", b"+0", b"00012", b"1E3", b"#XFF", b"#Xff", b"t.", b"nil.", b":nil", b":t", b"nil:t"]
+          b"550e8400-e29b-41d4", b"1e-7x", b"++", b"-+", b"+-", b"--", b"+++x", b"-+-", b"+.", b"-.", b"+@", b"-~x", b"-1+", b"+1-", b"0.0000001", b"-0", b"+0", b"00012", b"1E3", b"#XFF", b"#Xff", b"t.", b"nil.", b":nil", b":t", b"nil:t"]
 CONTEXTS = [(b"", b""), (b"(", b")"), (b"(x ", b")"), (b"(", b" x)"), (b"(x . ", b")"), (b"#(", b")"), (b"[x ", b"]"), (b"'", b""), (b"(x . ", b" )"), (b"#(y ", b" z)")]
 
 
